@@ -315,18 +315,18 @@ def worker(cases):
     core.use_repo()
     log = core.quiet_logger()
     reqs, ctx, recs = [], [], []
-    old = signal.signal(signal.SIGALRM, _alarm)
+    old = signal.signal(signal.SIGVTALRM, _alarm)
     try:
         for c in cases:
-            signal.setitimer(signal.ITIMER_REAL, 10.0)
+            signal.setitimer(signal.ITIMER_VIRTUAL, 10.0)
             try:
                 recs.append(run_case(c, log, reqs, ctx))
             except Timeout:
                 recs.append({"case": c, "viol": [("timeout", "merge did not finish in 10 s")], "skip": False})
             finally:
-                signal.setitimer(signal.ITIMER_REAL, 0)
+                signal.setitimer(signal.ITIMER_VIRTUAL, 0)
     finally:
-        signal.signal(signal.SIGALRM, old)
+        signal.signal(signal.SIGVTALRM, old)
     model = core.Driver().ask(reqs)
     out = {"n": 0, "skip": 0, "nontrivial": set(), "viol": [], "disag": [], "hist": {}, "samples": []}
     for rec, mo in zip(ctx, model):
